@@ -1,11 +1,13 @@
 (* C07 — resuming an interrupted run yields the outputs of an uninterrupted run.
-   Property theorems only; models and proofs: Resume.v (generic lock protocol), ResumeProgram.v (the pipeline as a program of
-   file-system operations; unit level for every chromosome list; merge_files is not a unit), ResumeCompute.v (the program
-   evaluated at every crash point of families of small configurations).
+   Property theorems only; models and proofs: Resume.v (generic lock protocol), ResumeInvariant.v (generic: the invariant "a lock
+   vouches for intact outputs" makes every crash point resumable, merge and clean-up included), ResumeProgram.v (the pipeline
+   as a program of file-system operations; unit level for every chromosome list; merge_files is not a unit), ResumeFull.v
+   (the repaired pipeline is an instance of ResumeInvariant for every chromosome list), ResumeCompute.v (the operation-level
+   program evaluated at every crash point of families of small configurations).
    The harness (harness/props/c07.py) checks that the logged mutation trace of the real pipeline IS `ticks cfg` and that the
    real outcome of kill + --resume at every mutation point IS `outcome_of cfg k after`. *)
 From Coq Require Import NArith List Bool Lia.
-From IQ Require Import Resume ResumeProgram ResumeCompute.
+From IQ Require Import Resume ResumeInvariant ResumeProgram ResumeFull ResumeCompute.
 Import ListNotations. Open Scope N_scope.
 
 (* ---- 1. the protocol, generically: units = truncating writes then the lock; resume = skip iff the lock exists.  Whatever the
@@ -51,7 +53,44 @@ Theorem C07_merge_not_a_unit : forall cf k x, merge_order cf <> [] -> stat x = R
 Proof. exact merge_not_a_unit. Qed.
 Print Assumptions C07_merge_not_a_unit.
 
-(* ---- 5. the operation-level program at every crash point; `family fc fp fcl` = 1 to 3 chromosomes (also with name order <>
+(* ---- 5. the repaired protocol, every crash point, EVERY chromosome list (unit level with reads, merge and clean-up).
+   Generic form: a program of producer units (lock last, skipped iff locked), lock drops, finals computed from parts that
+   are then removed strictly, clean-up of locks then data; any kill leaves a Good state, and from any Good state the resumed
+   program completes in the final state of the uninterrupted run. *)
+Theorem C07_resume_sound_generic : forall (F:Type) (feqb:F -> F -> bool), (forall a b, feqb a b = true <-> a = b) ->
+  forall (C:Type) (ceqb:C -> C -> bool), (forall a b, ceqb a b = true <-> a = b) ->
+  forall (want:F -> C) (lockc:C) (p:pprog F), wf F p ->
+  forall (s0 c:ResumeInvariant.st F C), (forall u, In u (units F p) -> s0 (p_lock F u) = None) ->
+  crash_state F feqb C ceqb want lockc p s0 c ->
+  exists s' s'', ResumeInvariant.exec F feqb C ceqb want lockc c (steps F p) = Some s' /\
+                 ResumeInvariant.exec F feqb C ceqb want lockc s0 (steps F p) = Some s'' /\ forall g, s' g = s'' g.
+Proof. exact resume_sound. Qed.
+Print Assumptions C07_resume_sound_generic.
+
+(* the pipeline with the three repairs: every configuration, every chromosome list without repetitions, every order `dl` in
+   which the clean-up removes the data files, every kill point *)
+Theorem C07_resume_any_crash_point : forall cf dl (s0 c:ResumeInvariant.st fname content),
+  NoDup (chrs cf) -> rg_ok cf = true -> layout_ok cf = true ->
+  (forall f, In f dl -> exists u, In u (p_units cf) /\ In f (p_outs fname u)) ->
+  (forall u, In u (p_units cf) -> s0 (p_lock fname u) = None) ->
+  f_crash_state cf dl s0 c ->
+  exists s' s'', f_exec c (steps fname (repaired_prog cf dl)) = Some s' /\ f_exec s0 (steps fname (repaired_prog cf dl)) = Some s'' /\
+                 forall g, s' g = s'' g.
+Proof. exact resume_any_crash_point. Qed.
+Print Assumptions C07_resume_any_crash_point.
+
+(* its units are the units of section 2 (same outputs, same locks), and its lock creations and removals are, in the same
+   order, those of the operation-level program that the harness compares with the real trace (computed for the family);
+   the side conditions layout_ok / rg_ok hold there *)
+Theorem C07_abstract_units_are_pipeline_units : forall cf,
+  map (fun u => (map (fun f => (f, want f)) (p_outs fname u), p_lock fname u)) (p_units cf) = map (fun u => (outs u, lock u)) (pipeline_units cf).
+Proof. exact p_units_are_pipeline_units. Qed.
+Print Assumptions C07_abstract_units_are_pipeline_units.
+Theorem C07_abstract_program_is_the_program : forallb abstract_matches (family true true true) = true.
+Proof. exact family_abstract_matches. Qed.
+Print Assumptions C07_abstract_program_is_the_program.
+
+(* ---- 6. the operation-level program at every crash point; `family fc fp fcl` = 1 to 3 chromosomes (also with name order <>
    processing order), with/without --genedb, with/without a read-group file, with/without --keep_tmp;
    fc / fp / fcl = with fixes/C07_close_before_lock / C07_drop_processed_locks_before_merge / C07_cleanup_locks_first *)
 (* current code: a kill before any mutation up to the first removal of a per-chromosome file resumes to identical outputs *)
@@ -141,3 +180,29 @@ Proof. cbv zeta. exists (firstn 6 (pipeline_units (gen_cfg [] [1;2;0] [1;2;0] tr
   - reflexivity.
   - vm_compute. repeat constructor; cbn; intuition discriminate.
   - reflexivity. Qed.
+
+(* the hypotheses of C07_resume_any_crash_point are satisfiable: three chromosomes with a read-group file, killed in the
+   merge phase after 44 steps (all units done, the _processed locks dropped, some parts already removed) *)
+Example crash_state_inhabited :
+  let cf := gen_cfg [] [1;2;0] [1;2;0] true true true false true true true in let dl := data_of_cleanup cf in
+  NoDup (chrs cf) /\ rg_ok cf = true /\ layout_ok cf = true /\ exists c, f_crash_state cf dl (fun _ => None) c.
+Proof. cbv zeta. split; [|split; [|split]].
+  - vm_compute. repeat constructor; cbn; intuition discriminate.
+  - vm_compute. reflexivity.
+  - vm_compute. reflexivity.
+  - set (cf := gen_cfg [] [1;2;0] [1;2;0] true true true false true true true). set (dl := data_of_cleanup cf).
+    set (l := steps fname (repaired_prog cf dl)).
+    assert (X: exists m, f_exec (fun _ => None) (firstn 44 l) = Some m) by (vm_compute; eexists; reflexivity).
+    destruct X as (m & X). exists m. exists (firstn 44 l), (nth 44 l (SErase fname Info)), (skipn 45 l), m.
+    split; [vm_compute; reflexivity|split; [exact X|reflexivity]]. Qed.
+
+(* what the current code breaks is the invariant: killed before mutation 53 of the bundled run the _processed lock of chr9
+   exists while the part OUT_chr9.transcript_models.gtf is gone *)
+Example C07_current_code_breaks_the_invariant :
+  let s : ResumeInvariant.st fname content := fun f => option_map fcontent (get (crash_fs (crash_run bundled_current 53 false)) f) in
+  ~ f_Good bundled_current [] s.
+Proof. cbv zeta. apply (lock_with_bad_output_not_good bundled_current [] _ (p_stage2 bundled_current 0) (Part 20 0)).
+  - vm_compute. repeat (try (left; reflexivity); right).
+  - vm_compute. repeat (try (left; reflexivity); right).
+  - vm_compute. discriminate.
+  - vm_compute. discriminate. Qed.
